@@ -8,7 +8,13 @@ LOADER = {"pkg": "./pkg/chart/v2/loader", "files": ["pkg/chart/v2/loader/h_c16_n
 
 RELUTIL = {"pkg": "./pkg/release/util", "files": ["pkg/release/util/h_c08_part.go"]}
 
+REPOPKG = {"pkg": "./pkg/repo", "files": ["pkg/repo/h_c18_index.go"]}
+
 CHECKS = {
+    "C18": {
+        "runs": [dict(REPOPKG, entries=["H18Index"], bounds_quick={"entries": 2, "shapes": 5, "maxdigit": 3}, bounds_thorough={"entries": 3, "shapes": 5, "maxdigit": 9})],
+        "bounds": {}, "assumptions": [],
+    },
     "C08": {
         "runs": [dict(RELUTIL, entries=["H08Partition", "H08Order"], bounds_quick={"files": 1, "docs": 2, "kinds": 5, "odocs": 3}, bounds_thorough={"files": 2, "docs": 2, "kinds": 7, "odocs": 4},
                       optional_sites=["partition/partials-never-applied"])],
